@@ -101,6 +101,9 @@ def _module(tag, body):
 JVM = dict(JAVA_TOOL_OPTIONS='-XX:ParallelGCThreads=2 -XX:CICompilerCount=2')
 
 
+_TAG = ['c13-']    # scratch directory prefix (per tier: a quick and a thorough run may go side by side)
+
+
 def _tlc_job(job):
     name, body, cfgkw, kw = job
     kw = dict(kw, timeout=kw.get('timeout', 900) * float(os.environ.get('VF_TIMEOUT_SCALE', '1')))
@@ -113,8 +116,8 @@ def _tlc_job(job):
         path = os.path.join(cache, name + '-' + h.hexdigest()[:16] + '.pkl')
         if os.path.exists(path):
             return name, pickle.load(open(path, 'rb'))
-    res = tlc.run('MCSubstX', cfg_text=_cfg('VFFamilies', **cfgkw), tag='c13-' + name, deadlock=False, env=JVM,
-                  extra_modules=[_module('c13-' + name, body)], **kw)
+    res = tlc.run('MCSubstX', cfg_text=_cfg('VFFamilies', **cfgkw), tag=_TAG[0] + name, deadlock=False, env=JVM,
+                  extra_modules=[_module(_TAG[0] + name, body)], **kw)
     if cache:
         os.makedirs(cache, exist_ok=True)
         pickle.dump(res, open(path, 'wb'))
@@ -143,6 +146,7 @@ def run(rep):
 def tlc_stage(rep):
     import concurrent.futures
     quick = rep.tier == 'quick'
+    _TAG[0] = 'c13-' if quick else 'c13t-'
     tables = {}
     jobs = []
     # 1. design spec, exhaustive over small vocabularies (one TLC process per vocabulary).  TLC's -coverage multiplies the run time
@@ -190,6 +194,10 @@ def tlc_stage(rep):
         if isexh:
             for a, (d, t) in res.coverage.items():
                 coverage[a] += t
+    emitted_actions = collections.Counter()
+    for g in list(exh.values()) + list(sim.values()):
+        emitted_actions.update(actions_of(g))
+    rep.extra['emitted_actions'] = dict(emitted_actions)   # actions taken in ALL behaviours TLC emitted (rep.actions: TLC's own coverage of the runs with -coverage)
     rep.exhaustive = False   # the simulation runs are not exhaustive; the exhN runs are (see tlc_cmds)
     rep.extra['spec_mutants'] = mut
     missing = [a for a in ACTIONS if coverage.get(a, 0) == 0]
@@ -269,7 +277,8 @@ def replay_stage(rep, exh, sim, tables):
     rep.extra['replayed_actions'] = dict(replayed_actions)
     rep.extra.update(comparisons=judged, values_compared=values, rejections_observed=rejects, late_rejections=late,
                      spellings_exercised=dict(spellings))
-    for g in sel[:3]:
+    shown = [g for g in sel if any(n['op'] in MANIPS for n in g['prog']) and any(r['verdict'] == 'VALUE' for r in g['outcomes'].values())]
+    for g in (shown[:2] + shown[len(shown) // 2:][:2] + sel[-1:])[:5]:
         rep.sample(dict(program=[[n['op'], n['d'], n['p'], n['k'], n['sh']] for n in g['prog']], outcomes=[[r['verdict'], r['stage'], r['asg'], r['mode']] for r in g['outcomes'].values()][:6]))
     rep.rule = ('case = one program of the Subst machine (function + manipulations) with all outcomes TLC predicts for it; '
                 'non-trivial = at least one manipulation (replace / linearize / derivative / factor / integral) and at least one outcome judged against nutils')
